@@ -26,6 +26,8 @@ func C01(r *core.Report) {
 	c01SectionLength(r)
 	c01CodecWidths(r)
 	c01CodecRoundTrip(r)
+	c01ScratchDirsUnique(r)
+	r.Floor("C01.R6", 3)
 	c01SharedWrites(r)
 	c01WriterLifecycle(r)
 	r.Floor("C01.R1", 25)
@@ -657,5 +659,66 @@ func c01CodecRoundTrip(r *core.Report) {
 			}
 		}
 		check(k+"#Put-value-FromBytes-round-trip", posP(r, put.Pos()), enc, note)
+	}
+}
+
+// c01ScratchDirsUnique (R6): the compact-index builder spills its tuples into files of a scratch directory which it
+// opens without O_EXCL / O_TRUNC and reads back from offset 0. Two builders sharing a directory (two overlapping
+// `index all` runs for the same epoch number and the same --tmp-dir) overwrite each other's tuples and both seal
+// successfully. Every NewBuilder_* therefore derives its scratch directory from a per-run unique source.
+func c01ScratchDirsUnique(r *core.Report) {
+	const rule = "C01.R6"
+	p := r.Prog
+	n := 0
+	for _, f := range p.FuncsInPkg("main") {
+		if f.Obj == nil || f.Body == nil || !strings.HasPrefix(f.Obj.Name(), "NewBuilder_") {
+			continue
+		}
+		info := f.Pkg.TypesInfo
+		// the directory handed to the index writer constructor
+		var dirArg ast.Expr
+		for _, c := range core.CallsIn(f.Body, false) {
+			if strings.HasPrefix(core.CalleeName(info, c), "indexes.NewWriter_") {
+				for _, a := range c.Args {
+					if t := info.TypeOf(a); t != nil && t.String() == "string" {
+						dirArg = a
+					}
+				}
+			}
+		}
+		if dirArg == nil {
+			continue
+		}
+		n++
+		k := f.Key + "#scratch-dir-unique-per-run"
+		do := core.ObjOf(info, dirArg)
+		unique := false
+		ast.Inspect(f.Body, func(m ast.Node) bool {
+			as, ok := m.(*ast.AssignStmt)
+			if !ok {
+				return true
+			}
+			for i, l := range as.Lhs {
+				if core.ObjOf(info, l) != do || do == nil {
+					continue
+				}
+				rhs := as.Rhs[0]
+				if i < len(as.Rhs) {
+					rhs = as.Rhs[i]
+				}
+				for _, c := range core.CallsIn(rhs, true) {
+					nm := core.CalleeName(info, c)
+					if nm == "os.MkdirTemp" || strings.HasPrefix(nm, "math/rand.") || strings.HasPrefix(nm, "math/rand/v2.") || strings.HasPrefix(nm, "crypto/rand.") || nm == "os.Getpid" || strings.HasPrefix(nm, "github.com/google/uuid.") {
+						unique = true
+					}
+				}
+			}
+			return true
+		})
+		r.Check(unique, rule, k, posP(r, f.Pos()), "the scratch directory name contains a per-run unique component",
+			"the scratch directory of the index builder is derived from fixed inputs only: two runs for the same epoch sharing the tmp dir overwrite each other's spill files and both report success with missing / wrong entries")
+	}
+	if n == 0 {
+		r.Undecided(rule, "main#NewBuilder_", "", "no NewBuilder_* function handing a directory to an index writer found")
 	}
 }
